@@ -589,14 +589,14 @@ long long strtonum(const char *s, long long minval, long long maxval, const char
 
 	errno = 0;
 	res = strtoll(s, &end, 10);
-	if (errno == ERANGE) {
+	if (*end || end == s) {
+		goto einval;
+	} else if (errno == ERANGE) {
 		if (res < 0)
 			goto esmall;
 		else
 			goto elarge;
 	} else if (errno != 0) {
-		goto einval;
-	} else if (*end || end == s) {
 		goto einval;
 	} else if (res < minval) {
 		goto esmall;
